@@ -77,12 +77,12 @@ def capture_calls():
         hmain.run_target_function = orig
 
 
-def gen_filters(rnd: random.Random, fns) -> invgen.Filters:
+def gen_filters(rnd: random.Random, fns, k: int | None = None) -> invgen.Filters:
     A, B = invgen.TARGET_ADDR, invgen.DUMMY_ADDR
     F = invgen.Filters
     f = rnd.choice(fns).sig
     g = rnd.choice(fns).sig
-    return rnd.choice([
+    shapes = [
         F(t_selectors=[(A, [f])]),
         F(x_selectors=[(A, [f])]),
         F(t_selectors=[(A, [f])], x_selectors=[(A, [f])]),  # excludeSelectors is ignored when selectors are targeted
@@ -94,10 +94,17 @@ def gen_filters(rnd: random.Random, fns) -> invgen.Filters:
         F(x_selectors=[(A, [f]), (B, ["noop()"])]),
         F(t_senders=[invgen.OWNER]),
         F(x_senders=[invgen.OWNER]),
+        F(x_contracts=[A], t_selectors=[(A, [f])]),  # excluded, but named by targetSelectors: stays a target, restricted to f
+        F(t_contracts=[A, B], x_contracts=[A], t_selectors=[(A, [f, g])]),
+        F(x_contracts=[A, B], t_selectors=[(B, ["noop()"]), (A, [g])]),
         F(t_senders=[invgen.OWNER, invgen.OTHER], x_senders=[invgen.OWNER]),
         F(t_senders=[invgen.OTHER], x_senders=[invgen.OTHER]),  # nothing left to target: anyone but the excluded
         F(t_senders=[invgen.OWNER], x_selectors=[(A, [f])], x_contracts=[B]),
-    ])
+    ]
+    return shapes[k % len(shapes)] if k is not None else rnd.choice(shapes)
+
+
+NSHAPES = 17
 
 
 def concretise(expr, env: dict) -> int:
@@ -195,16 +202,15 @@ def slicing_phase(chk: Check, tier: str, work):
 
 def run(chk: Check, tier: str):
     rnd = random.Random(92821 * chk.seed + 15)
-    n = 24 if tier == "quick" else 400
+    n = 16 if tier == "quick" else 300
     machines = []
     for i in range(n):
         d = [0, 1, 1, 2, 2, 2][i % 6] if tier == "quick" else [0, 1, 2, 2, 3, 3][i % 6]
-        if i % 3 == 2:
-            # a target/exclude filter scenario: the test contract declares forge-std's getters
-            fns = invgen.gen_functions(rnd, rnd.randint(2, 4))
-            machines.append(invgen.gen_machine(rnd, depth=max(d, 1), fns=fns, filters=gen_filters(rnd, fns)))
-        else:
-            machines.append(invgen.gen_machine(rnd, depth=d))
+        machines.append(invgen.gen_machine(rnd, depth=d))
+    # target/exclude filter scenarios: the test contract declares forge-std's getters; every shape in every run
+    for k in range(NSHAPES if tier == "quick" else 6 * NSHAPES):
+        fns = invgen.gen_functions(rnd, rnd.randint(2, 4))
+        machines.append(invgen.gen_machine(rnd, depth=1 if tier == "quick" else rnd.choice([1, 1, 2]), fns=fns, filters=gen_filters(rnd, fns, k)))
     work = workdir("c15")
     try:
         slicing_phase(chk, tier, work)
@@ -333,7 +339,7 @@ def run(chk: Check, tier: str):
         "generated target contracts (2-4 functions over two state words: increments, guarded sets, owner-only, payable, "
         "asserting, swap/reset, and functions comparing block.timestamp with the timestamp of their previous call) with an invariant test contract; Frontier.tla explores every sequence of <= d calls over "
         "complete finite domains (arguments masked to 0..3, senders {OWNER, OTHER}, values {0,1}, non-decreasing timestamps from 1..d+1) with one Evm!Run per call; "
-        "a third of the machines declare target/exclude filters (contracts, selectors, senders; 14 shapes) through forge-std's getters: "
+        "a third of the machines declare target/exclude filters (contracts, selectors, senders; 17 shapes) through forge-std's getters: "
         "Frontier!TargetAddrs/TargetFns/Senders resolve them by Foundry's rules and the calls and sender sets halmos sets up are compared with them; "
         "state identity: PathSlice.tla (slice = connected component of the path's conditions; backward-only update refuted) with every enumerated "
         "append/branch history replayed into the real Path; "
